@@ -392,4 +392,125 @@ func checkC07(c *Check) {
 	}
 	path, f := ra.F.Reach(Query{From: ra.Entry(), Inclusive: true, Target: notNone, AvoidEdge: nilRec})
 	c.Hold("R3", "Verifier.Apply:no-record-no-action", ra.FI.Decl.Pos(), !f, "without a published record an action other than none can be returned: "+ra.F.Describe(path))
+
+	// ---- R4: which policy applies. RFC 7489 §6.3: the record's sp= is the requested policy when the record was found at
+	// another (the organizational) domain than the From domain and sp is present; p= otherwise.
+	c.Rule("R4", "Verifier.Apply: the policy returned is the record's subdomain policy exactly in the world 'record found at a domain other than the From domain, and sp present' – the record's policy otherwise (reaching definitions of the returned value per world)", 1)
+	{
+		msg4 := ""
+		{
+			isDomCmp := func(atom ast.Expr) (truthWhenSame bool, ok bool) {
+				// strings.EqualFold(data.policyDomain, data.fromDomain) or ==
+				var a, b ast.Expr
+				neg := false
+				switch x := ast.Unparen(atom).(type) {
+				case *ast.CallExpr:
+					if isCall(info, x, "strings.EqualFold") && len(x.Args) == 2 {
+						a, b = x.Args[0], x.Args[1]
+					}
+				case *ast.BinaryExpr:
+					if x.Op == token.EQL || x.Op == token.NEQ {
+						a, b, neg = x.X, x.Y, x.Op == token.NEQ
+					}
+				}
+				if a == nil {
+					return false, false
+				}
+				fa, fb := fieldOf(info, a), fieldOf(info, b)
+				if fa == nil || fb == nil {
+					return false, false
+				}
+				na, nb := objName(fa), objName(fb)
+				if (na == "policyDomain" && nb == "fromDomain") || (na == "fromDomain" && nb == "policyDomain") {
+					return !neg, true
+				}
+				return false, false
+			}
+			world := func(same, spPresent bool) func(b *cfgBlock, i int) bool {
+				return ra.F.World(func(atom ast.Expr) (bool, bool) {
+					if t, ok := isDomCmp(atom); ok {
+						return t == same, true
+					}
+					if be, ok := ast.Unparen(atom).(*ast.BinaryExpr); ok && (be.Op == token.EQL || be.Op == token.NEQ) {
+						if fv := fieldOf(info, be.X); fv != nil && objName(fv) == "SubdomainPolicy" {
+							if sv, ok := constString(info, be.Y); ok && sv == "" {
+								return (be.Op == token.NEQ) == spPresent, true
+							}
+						}
+					}
+					// a record was fetched
+					if w, ok := isErrTest(atom); ok {
+						return !w, true
+					}
+					return false, false
+				})
+			}
+			// classify what a world can return as the policy: the record's p=, its sp=, or something else (constants
+			// such as PolicyNone – "nothing to enforce / sampled out" – are not a choice between the two)
+			classify := func(same, sp bool) (p, spDef, other bool) {
+				w := world(same, sp)
+				kind := func(e ast.Expr) {
+					e = ast.Unparen(e)
+					if fv := fieldOf(info, e); fv != nil {
+						switch objName(fv) {
+						case "Policy":
+							p = true
+						case "SubdomainPolicy":
+							spDef = true
+						default:
+							other = true
+						}
+						return
+					}
+					if sx, ok := e.(*ast.SelectorExpr); ok {
+						if _, isConst := info.Uses[sx.Sel].(*types.Const); isConst {
+							return
+						}
+					}
+					other = true
+				}
+				for _, blk := range ra.F.G.Blocks {
+					pt := Pt{blk, len(blk.Nodes)}
+					_, ret := ra.F.Exit(pt)
+					if ret == nil || len(ret.Results) != 2 {
+						continue
+					}
+					if _, f := ra.F.Reach(Query{From: ra.Entry(), Inclusive: true, Target: func(q Pt) bool { return q == pt }, AvoidEdge: w}); !f {
+						continue
+					}
+					if v, ok := objOf(info, ret.Results[1]).(*types.Var); ok && !v.IsField() && posIn(ra.FI.Decl.Body, v.Pos()) {
+						defs, okD := ra.ReachingDefs(v, Pt{blk, len(blk.Nodes) - 1}, w)
+						if !okD {
+							other = true
+						}
+						for _, d := range defs {
+							kind(d)
+						}
+						continue
+					}
+					kind(ret.Results[1])
+				}
+				return
+			}
+			for _, wld := range []struct {
+				same, sp, wantSP bool
+				what          string
+			}{
+				{true, true, false, "the record was found at the From domain itself"},
+				{false, false, false, "the record was found at another domain but has no sp="},
+				{false, true, true, "the record was found at another domain and has sp="},
+			} {
+				p, spd, oth := classify(wld.same, wld.sp)
+				switch {
+				case oth:
+					msg4 = "the returned policy can be something other than the record's p= / sp="
+				case wld.wantSP && (p || !spd):
+					msg4 = "when " + wld.what + " the subdomain policy is not (only) what is returned"
+				case !wld.wantSP && (spd || !p):
+					msg4 = "when " + wld.what + " the record's p= is not (only) what is returned: the choice between p= and sp= does not depend on where the record was found"
+				}
+			}
+		}
+		c.Hold("R4", "Verifier.Apply:policy-selection", ra.FI.Decl.Pos(), msg4 == "", msg4)
+	}
 }
